@@ -9,6 +9,7 @@ import BV.C19.Session
 import BV.C19.Lemmas
 import BV.C19.Stream
 import BV.C19.EllswiftLemmas
+import BV.C19.EllswiftExample
 import BV.Generated.C19
 namespace BV.C19
 open BV.C19.Spec BV.Aead BV.Hex
@@ -186,6 +187,12 @@ theorem xswiftec_inv_correct {F : Type} [Field F] [DecidableEq F] {O : Ellswift.
     (hx : ∃ y, y * y = x ^ 3 + 7) (h : Ellswift.xswiftecInv O u x case = some t) :
     Ellswift.xswiftec O u t = some x :=
   Ellswift.Lemmas.xswiftec_inv_correct L u x t case hu h2 h3 hg hx h
+
+/-- the hypotheses of `xswiftec_inv_correct` are satisfiable (the field with 13 elements: c = 6,
+no root of x³ + 7), and the theorem applies to a concrete encoding there -/
+example : Ellswift.xswiftec Ellswift.Lemmas.ops13 1 2 = some 7 :=
+  xswiftec_inv_correct Ellswift.Lemmas.lawful13 1 7 2 0 (by decide) Ellswift.Lemmas.hyps13.1
+    Ellswift.Lemmas.hyps13.2.1 Ellswift.Lemmas.hyps13.2.2 ⟨5, by decide⟩ (by decide)
 
 /-- hypotheses of the theorems above are satisfiable -/
 example : ∃ P : Prims, ∀ k m, (P.mac k m).length = 16 := ⟨chachaPoly, chachaPoly_tag_length⟩
